@@ -5,7 +5,7 @@ Import ListNotations.
 Open Scope string_scope.
 
 
-(* saml2/assertion.py:Policy.get, lines 332-361 *)
+(* saml2/assertion.py:Policy.get, lines 334-363 *)
 Definition src_policy_get (registration_info : pyval -> pyval) (v_self : pyval) (v_attribute : pyval) (v_sp_entity_id : pyval) (v_default : pyval) : pyval :=
   (if py_truthy (py_not (py_attr v_self "_restrictions"))
    then v_default
